@@ -49,6 +49,55 @@ impl AmlSink for AllOverride {
     }
 }
 
+/// Sinks that override exactly one (or two) of the optional entry points, so that the crate's
+/// defaults for the others are exercised in every combination a caller's sink might present.
+macro_rules! partial_sink {
+    ($name:ident, $($m:ident : $t:ty),*) => {
+        #[derive(Default)]
+        pub struct $name(pub Vec<u8>);
+        impl AmlSink for $name {
+            fn byte(&mut self, byte: u8) {
+                self.0.push(byte);
+            }
+            $(fn $m(&mut self, x: $t) {
+                push_le(&mut self.0, x);
+            })*
+        }
+    };
+}
+trait Le {
+    fn put(self, out: &mut Vec<u8>);
+}
+impl Le for u16 {
+    fn put(self, out: &mut Vec<u8>) {
+        out.extend_from_slice(&self.to_le_bytes())
+    }
+}
+impl Le for u32 {
+    fn put(self, out: &mut Vec<u8>) {
+        out.extend_from_slice(&self.to_le_bytes())
+    }
+}
+impl Le for u64 {
+    fn put(self, out: &mut Vec<u8>) {
+        out.extend_from_slice(&self.to_le_bytes())
+    }
+}
+impl Le for &[u8] {
+    fn put(self, out: &mut Vec<u8>) {
+        out.extend_from_slice(self)
+    }
+}
+fn push_le<T: Le>(out: &mut Vec<u8>, x: T) {
+    x.put(out)
+}
+partial_sink!(OnlyVec, vec: &[u8]);
+partial_sink!(OnlyWord, word: u16);
+partial_sink!(OnlyDword, dword: u32);
+partial_sink!(OnlyQword, qword: u64);
+partial_sink!(WordQword, word: u16, qword: u64);
+partial_sink!(VecDword, vec: &[u8], dword: u32);
+
 /// Payload of an injected sink failure.
 pub struct SinkAbort;
 /// Payload of an injected producer failure.
